@@ -270,3 +270,29 @@ Proof.
     rewrite owrite_app by exact Ho. reflexivity.
   - cbn [parse]. rewrite (varint_parse_spec _ n) by apply varint_encode_leb. reflexivity.
 Qed.
+
+(* ---- values that are not integers have no integer encoding (C03, C06): every integer field refuses them with its own error class, whatever
+   `int()` would have made of them - floats (2.7, 1.0), strings ('12'), byte strings, None, lists and containers. An int or a bool is the only
+   thing int_of_val accepts. ---- *)
+Theorem int_of_val_only_ints : forall v, int_of_val v <> None -> exists z, v = VInt z \/ exists b, v = VBool b /\ z = (if b then 1 else 0)%Z.
+Proof.
+  intros v H. destruct v; try (cbn in H; congruence).
+  - eexists. right. eexists. split; reflexivity.
+  - eexists. left. reflexivity.
+Qed.
+
+Theorem integer_fields_refuse_non_integers : forall obj cx p o, int_of_val obj = None ->
+  (forall len s sw, build (CBytesInt len s sw) obj cx p o = Err EInteger (Some p)) /\
+  (forall len s sw, build (CBitsInt len s sw) obj cx p o = Err EInteger (Some p)) /\
+  build CVarInt obj cx p o = Err EInteger (Some p) /\
+  build CZigZag obj cx p o = Err EInteger (Some p) /\
+  (forall en f, fcode_float f = false -> build (CFormat en f) obj cx p o = Err EFormatField (Some p)).
+Proof.
+  intros obj cx p o H. repeat split; intros; cbn [build]; unfold build_format; rewrite ?H; try reflexivity.
+  rewrite H0. reflexivity.
+Qed.
+
+Example non_integers :
+  int_of_val (VFloat 0) = None /\ int_of_val (VStr [49; 50]%N) = None /\ int_of_val (VBytes [x33]) = None /\ int_of_val VNone = None /\
+  int_of_val (VList [VInt 1]) = None /\ int_of_val (VDict []) = None.
+Proof. repeat split. Qed.
